@@ -39,6 +39,15 @@ Definition parse_query (raw : str) : list (str * str) :=
 Definition query_get (raw : str) (name : str) : str :=
   match find (fun kv => str_eqb (fst kv) name) (parse_query raw) with Some kv => snd kv | None => [] end.
 
+(* QueryStrings: every value of the key, in order; the default (or the empty list) when the key does not occur *)
+Definition query_values (raw : str) (name : str) : list str :=
+  map snd (filter (fun kv => str_eqb (fst kv) name) (parse_query raw)).
+Definition query_strings (raw : str) (name : str) (d : option (list str)) : list str :=
+  match query_values raw name with
+  | [] => match d with Some x => x | None => [] end
+  | vs => vs
+  end.
+
 (* how a client (or url.Values.Encode, up to the order of keys) writes pairs *)
 Definition enc_pair (kv : str * str) : str := query_escape (fst kv) ++ 61 :: query_escape (snd kv).
 Fixpoint encode_pairs (l : list (str * str)) : str :=
